@@ -10,7 +10,7 @@ import ast
 import re
 
 from sa.core.common import AnalysisError, Collector
-from sa.core.paths import enumerate_paths, guards, len_constraint, parent_map
+from sa.core.paths import enclosing, enumerate_paths, guards, len_constraint, parent_map
 from sa.core.pyfacts import Repo, arg, call_name, const_str, kwarg, src, walk_no_nested
 from sa.core.readme_tables import Readme
 from sa.props._tr import defs_of, visitor_methods
@@ -126,7 +126,7 @@ def check_gate(col, repo: Repo, m):
     vn = m.get("visit_Name")
     sets = [c for c in ast.walk(vn.node) if isinstance(c, ast.Call) and call_name(c) == "set_rep"]
     pm = parent_map(vn.node)
-    ok = len(sets) == 1 and any("is not None" in src(t) and tr_ for t, tr_ in guards(vn.node, sets[0], pm))
+    ok = len(sets) == 1 and any(src(t).endswith(" is None") and not tr_ for t, tr_ in guards(vn.node, sets[0], pm))
     col.add("C09.R1", vn.short, "unknown-name-gets-no-representation", ok,
             "visit_Name may publish a representation only under `resolved is not None`; an unknown name must stay without rep so get_rep raises", vn.loc)
 
@@ -156,16 +156,28 @@ def check_tables(col, repo: Repo):
     for hname, table, kind in (("visit_UnaryOp", "_known_unary_operators", "raise"), ("visit_BinOp", "_known_binary_operators", "delegate")):
         f = repo.method("query_ast_visitor", hname)
         ifs = [n for n in walk_no_nested(f.node) if isinstance(n, ast.If) and table in src(n.test) and isinstance(n.test, ast.Compare)
-               and isinstance(n.test.ops[0], ast.NotIn)]
+               and isinstance(n.test.ops[0], (ast.NotIn, ast.In))]
         ok = len(ifs) == 1
+        # the branch taken for an operator that is NOT in the table (either spelling of the test)
+        unknown = (ifs[0].body if isinstance(ifs[0].test.ops[0], ast.NotIn) else ifs[0].orelse) if ok else []
+        if ok and not unknown and isinstance(ifs[0].test.ops[0], ast.In):
+            # `if op in table: ...; return` followed by the unknown-operator code
+            pmf = parent_map(f.node)
+            blk = pmf.get(ifs[0])
+            for fld in ("body", "orelse"):
+                lst = getattr(blk, fld, None)
+                if isinstance(lst, list) and ifs[0] in lst:
+                    unknown = lst[lst.index(ifs[0]) + 1:]
         if ok and kind == "raise":
-            ok = any(isinstance(r, ast.Raise) for r in ifs[0].body)
+            ok = any(isinstance(r, ast.Raise) for st in unknown for r in ast.walk(st))
         elif ok:
-            calls = [c for c in ast.walk(ast.Module(body=ifs[0].body, type_ignores=[])) if isinstance(c, ast.Call) and call_name(c) == "visit_special_BinOp"]
+            calls = [c for c in ast.walk(ast.Module(body=unknown, type_ignores=[])) if isinstance(c, ast.Call) and call_name(c) == "visit_special_BinOp"]
             sp = repo.method("query_ast_visitor", "visit_special_BinOp")
-            last = sp.node.body[-1]
-            ok = len(calls) == 1 and isinstance(last, ast.If) and last.orelse and any(isinstance(r, ast.Raise) for r in last.orelse) \
-                and not [s for s in ifs[0].body if isinstance(s, ast.Assign)]
+            spm = parent_map(sp.node)
+            # the special handler raises for every operator none of its tests recognises
+            falls = [r for r in walk_no_nested(sp.node) if isinstance(r, ast.Raise)
+                     and guards(sp.node, r, spm) and all(not tr_ for _, tr_ in guards(sp.node, r, spm))]
+            ok = len(calls) == 1 and bool(falls) and not [s for s in unknown if isinstance(s, ast.Assign)]
         col.add("C09.R2", f.short, f"unknown-operator-refused:{table}", ok,
                 "an operator outside the table must raise (directly, or in the special-operator handler's final else)", f.loc)
     mat = repo.function("most_accurate_type")
@@ -287,12 +299,12 @@ def _code_value_builders_check_arity(repo: Repo) -> bool:
         n += 1
         raises = [r for r in walk_no_nested(f.node) if isinstance(r, ast.Raise)]
         pm = parent_map(f.node)
-        good = False
-        for r in raises:
-            for t, tr_ in guards(f.node, r, pm):
-                if tr_ and isinstance(t, ast.Compare) and src(t.left) == "len(call_node.args)" and isinstance(t.ops[0], ast.NotEq) and r.lineno < sets_args[0].lineno:
-                    good = True
-        ok = ok and good
+        # the formal arguments are installed only where the arity test held, and the other outcome of that test raises
+        held = any(tr_ and isinstance(t, ast.Compare) and src(t.left) == "len(call_node.args)" and isinstance(t.ops[0], ast.Eq)
+                   for t, tr_ in guards(f.node, sets_args[0], pm))
+        refused = any((not tr_) and isinstance(t, ast.Compare) and src(t.left) == "len(call_node.args)" and isinstance(t.ops[0], ast.Eq)
+                      for r in raises for t, tr_ in guards(f.node, r, pm))
+        ok = ok and held and refused
     return ok and n >= 4
 
 
@@ -349,7 +361,7 @@ REFUSALS = [
     ("query_ast_visitor", "as_sequence", "last-raise", "treating a value as a sequence"),
     ("query_ast_visitor", "visit_Attribute", "last-raise", "unknown member"),
     ("query_ast_visitor", "visit_Constant", "else-raise", "unsupported constant kind"),
-    ("query_ast_visitor", "visit_Compare", "guard-raise:len(node.ops) != 1", "chained comparison"),
+    ("query_ast_visitor", "visit_Compare", "guard-raise:len(node.ops) == 1", "chained comparison"),
     ("query_ast_visitor", "visit_Subscript", "guard-raise:cpp_collection", "indexing a non-collection (incl. slicing a value)"),
     ("query_ast_visitor", "visit_Call_Member", "guard-raise:cpp_value", "calling a method on a sequence"),
     ("query_ast_visitor", "visit_Dict", "guard-raise:node.keys", "dictionary unpacking"),
@@ -383,29 +395,31 @@ def check_refusals(col, repo: Repo, m):
         ok = False
         if how == "first-raise":
             ok = bool(body) and isinstance(body[0], ast.Raise)
-        elif how == "last-raise":
-            ok = bool(body) and isinstance(body[-1], ast.Raise)
-        elif how == "else-raise":
-            # final else of the top-level if/elif chain raises
-            chain = [s for s in body if isinstance(s, ast.If)]
-            n = chain[-1] if chain else None
-            while n is not None and len(n.orelse) == 1 and isinstance(n.orelse[0], ast.If):
-                n = n.orelse[0]
-            ok = n is not None and bool(n.orelse) and isinstance(n.orelse[-1], ast.Raise)
-        elif how == "last-else-raise":
-            n = body[-1] if body and isinstance(body[-1], ast.If) else None
-            while n is not None and len(n.orelse) == 1 and isinstance(n.orelse[0], ast.If):
-                n = n.orelse[0]
-            ok = n is not None and bool(n.orelse) and isinstance(n.orelse[-1], ast.Raise)
+        elif how in ("last-raise", "else-raise", "last-else-raise"):
+            # the case that no branch handles must end in a raise: the function raises somewhere outside an exception handler, and no path
+            # leaves it quietly - every path that does not raise returns a value or publishes a representation.  (Independent of how the
+            # dispatch is spelled: guard clauses, if/elif/else, negated tests - see E-NORM N6.)
+            pm = parent_map(f.node)
+            has_raise = any(isinstance(r, ast.Raise) and not enclosing(f.node, r, (ast.ExceptHandler,), pm) for r in walk_no_nested(f.node))
+            quiet = 0
+            paths = enumerate_paths(f.node)
+            for p_ in paths:
+                if p_.status == "raise":
+                    continue
+                rets = [e.node for e in p_.events if e.kind == "return"]
+                valued = bool(rets) and rets[-1].value is not None and not (isinstance(rets[-1].value, ast.Constant) and rets[-1].value.value is None)
+                publishes = any(e.kind == "call" and call_name(e.node) in ("set_rep",) for e in p_.events)
+                if not valued and not publishes:
+                    quiet += 1
+            ok = has_raise and quiet == 0 and bool(paths)
         elif how == "loop-else-raise":
-            loops = [s for s in body if isinstance(s, ast.For)]
-            ok = False
-            for lp in loops:
-                chain = [s for s in lp.body if isinstance(s, ast.If)]
-                n = chain[-1] if chain else None
-                while n is not None and len(n.orelse) == 1 and isinstance(n.orelse[0], ast.If):
-                    n = n.orelse[0]
-                ok = ok or (n is not None and bool(n.orelse) and isinstance(n.orelse[-1], ast.Raise))
+            pm = parent_map(f.node)
+            for sc in [lp for lp in body if isinstance(lp, ast.For)]:
+                for r in walk_no_nested(sc):
+                    if isinstance(r, ast.Raise) and not enclosing(f.node, r, (ast.ExceptHandler,), pm):
+                        g = guards(sc, r, parent_map(sc))
+                        if g and all(not tr_ for _, tr_ in g):
+                            ok = True
         elif how.startswith("guard-raise:"):
             needle = how.split(":", 1)[1]
             pm = parent_map(f.node)
